@@ -69,6 +69,24 @@ Inductive await :=
 | AwReqStream | AwReq | AwRespHSet | AwRespH (es : bool) | AwResponse (already : bool)
 | AwKilled | AwPErr (isreq : bool) (code : option N) (af : after) | AwConnect.
 
+(* ghost: summary of the hooks fired so far, maintained by a monitor automaton (see mon_step) *)
+Record mstate := mkM { m_qh : bool; m_q : bool; m_rh : bool; m_r : bool; m_er : bool; m_cn : bool;
+                       m_ok : bool (* ordering rules never broken *); m_er2 : bool (* error fired twice *);
+                       m_early : bool (* responseheaders fired before request *) }.
+Definition m0 : mstate := mkM false false false false false false true false false.
+Definition mon_step (m : mstate) (h : hook) : mstate :=
+  let any := m_qh m || m_q m || m_rh m || m_r m || m_er m || m_cn m in
+  match h with
+  | HkReqHeaders => mkM true (m_q m) (m_rh m) (m_r m) (m_er m) (m_cn m) (m_ok m && negb any) (m_er2 m) (m_early m)
+  | HkConnect => mkM (m_qh m) (m_q m) (m_rh m) (m_r m) (m_er m) true (m_ok m && negb any) (m_er2 m) (m_early m)
+  | HkRequest => mkM (m_qh m) true (m_rh m) (m_r m) (m_er m) (m_cn m) (m_ok m && m_qh m && negb (m_q m)) (m_er2 m) (m_early m)
+  | HkRespHeaders => mkM (m_qh m) (m_q m) true (m_r m) (m_er m) (m_cn m) (m_ok m && m_qh m && negb (m_rh m)) (m_er2 m)
+                         (m_early m || negb (m_q m))
+  | HkResponse => mkM (m_qh m) (m_q m) (m_rh m) true (m_er m) (m_cn m) (m_ok m && m_qh m && m_rh m && negb (m_r m)) (m_er2 m) (m_early m)
+  | HkError => mkM (m_qh m) (m_q m) (m_rh m) (m_r m) true (m_cn m) (m_ok m && m_qh m) (m_er2 m || m_er m) (m_early m)
+  end.
+Definition summ (hs : list hook) : mstate := fold_left mon_step hs m0.
+
 Record resp := mkResp { r_head : head; r_content : bytes; r_stream : bool }.
 
 Record stream := mkStream {
@@ -78,26 +96,41 @@ Record stream := mkStream {
   reqbuf : bytes; respbuf : bytes; srv : option N;
   hooks : list hook (* ghost: hooks fired so far, oldest first *);
   upstream : bool (* ghost: request headers were sent to a server *);
-  tunnel : bool; crashed : bool }.
+  tunnel : bool; crashed : bool;
+  (* ghost state used only by the proofs and by the run-time contract check *)
+  msum : mstate          (* = summ hooks *);
+  aborted : bool         (* the client error was forwarded to the server (handle_protocol_error, talk-upstream branch) *);
+  reqerr_h : bool        (* a RequestProtocolError has been handled *);
+  req_fin : bool         (* RequestEndOfMessage or RequestProtocolError handled *);
+  resp_fin : bool        (* ResponseEndOfMessage or ResponseProtocolError handled *);
+  venv : bool            (* an event was handled that the connection layers never deliver in that situation *);
+  vgap : bool            (* a response-side event was handled after the flow had been aborted towards the server *) }.
 
-Definition upd_sid (v : N) (s : stream) : stream := {| sid := v; cs := cs s; ss := ss s; pc := pc s; queue := queue s; req := req s; req_content := req_content s; req_stream := req_stream s; fresp := fresp s; ferr := ferr s; live := live s; reqbuf := reqbuf s; respbuf := respbuf s; srv := srv s; hooks := hooks s; upstream := upstream s; tunnel := tunnel s; crashed := crashed s |}.
-Definition upd_cs (v : sst) (s : stream) : stream := {| sid := sid s; cs := v; ss := ss s; pc := pc s; queue := queue s; req := req s; req_content := req_content s; req_stream := req_stream s; fresp := fresp s; ferr := ferr s; live := live s; reqbuf := reqbuf s; respbuf := respbuf s; srv := srv s; hooks := hooks s; upstream := upstream s; tunnel := tunnel s; crashed := crashed s |}.
-Definition upd_ss (v : sst) (s : stream) : stream := {| sid := sid s; cs := cs s; ss := v; pc := pc s; queue := queue s; req := req s; req_content := req_content s; req_stream := req_stream s; fresp := fresp s; ferr := ferr s; live := live s; reqbuf := reqbuf s; respbuf := respbuf s; srv := srv s; hooks := hooks s; upstream := upstream s; tunnel := tunnel s; crashed := crashed s |}.
-Definition upd_pc (v : option await) (s : stream) : stream := {| sid := sid s; cs := cs s; ss := ss s; pc := v; queue := queue s; req := req s; req_content := req_content s; req_stream := req_stream s; fresp := fresp s; ferr := ferr s; live := live s; reqbuf := reqbuf s; respbuf := respbuf s; srv := srv s; hooks := hooks s; upstream := upstream s; tunnel := tunnel s; crashed := crashed s |}.
-Definition upd_queue (v : list hev) (s : stream) : stream := {| sid := sid s; cs := cs s; ss := ss s; pc := pc s; queue := v; req := req s; req_content := req_content s; req_stream := req_stream s; fresp := fresp s; ferr := ferr s; live := live s; reqbuf := reqbuf s; respbuf := respbuf s; srv := srv s; hooks := hooks s; upstream := upstream s; tunnel := tunnel s; crashed := crashed s |}.
-Definition upd_req (v : option head) (s : stream) : stream := {| sid := sid s; cs := cs s; ss := ss s; pc := pc s; queue := queue s; req := v; req_content := req_content s; req_stream := req_stream s; fresp := fresp s; ferr := ferr s; live := live s; reqbuf := reqbuf s; respbuf := respbuf s; srv := srv s; hooks := hooks s; upstream := upstream s; tunnel := tunnel s; crashed := crashed s |}.
-Definition upd_req_content (v : bytes) (s : stream) : stream := {| sid := sid s; cs := cs s; ss := ss s; pc := pc s; queue := queue s; req := req s; req_content := v; req_stream := req_stream s; fresp := fresp s; ferr := ferr s; live := live s; reqbuf := reqbuf s; respbuf := respbuf s; srv := srv s; hooks := hooks s; upstream := upstream s; tunnel := tunnel s; crashed := crashed s |}.
-Definition upd_req_stream (v : bool) (s : stream) : stream := {| sid := sid s; cs := cs s; ss := ss s; pc := pc s; queue := queue s; req := req s; req_content := req_content s; req_stream := v; fresp := fresp s; ferr := ferr s; live := live s; reqbuf := reqbuf s; respbuf := respbuf s; srv := srv s; hooks := hooks s; upstream := upstream s; tunnel := tunnel s; crashed := crashed s |}.
-Definition upd_fresp (v : option resp) (s : stream) : stream := {| sid := sid s; cs := cs s; ss := ss s; pc := pc s; queue := queue s; req := req s; req_content := req_content s; req_stream := req_stream s; fresp := v; ferr := ferr s; live := live s; reqbuf := reqbuf s; respbuf := respbuf s; srv := srv s; hooks := hooks s; upstream := upstream s; tunnel := tunnel s; crashed := crashed s |}.
-Definition upd_ferr (v : option bool) (s : stream) : stream := {| sid := sid s; cs := cs s; ss := ss s; pc := pc s; queue := queue s; req := req s; req_content := req_content s; req_stream := req_stream s; fresp := fresp s; ferr := v; live := live s; reqbuf := reqbuf s; respbuf := respbuf s; srv := srv s; hooks := hooks s; upstream := upstream s; tunnel := tunnel s; crashed := crashed s |}.
-Definition upd_live (v : bool) (s : stream) : stream := {| sid := sid s; cs := cs s; ss := ss s; pc := pc s; queue := queue s; req := req s; req_content := req_content s; req_stream := req_stream s; fresp := fresp s; ferr := ferr s; live := v; reqbuf := reqbuf s; respbuf := respbuf s; srv := srv s; hooks := hooks s; upstream := upstream s; tunnel := tunnel s; crashed := crashed s |}.
-Definition upd_reqbuf (v : bytes) (s : stream) : stream := {| sid := sid s; cs := cs s; ss := ss s; pc := pc s; queue := queue s; req := req s; req_content := req_content s; req_stream := req_stream s; fresp := fresp s; ferr := ferr s; live := live s; reqbuf := v; respbuf := respbuf s; srv := srv s; hooks := hooks s; upstream := upstream s; tunnel := tunnel s; crashed := crashed s |}.
-Definition upd_respbuf (v : bytes) (s : stream) : stream := {| sid := sid s; cs := cs s; ss := ss s; pc := pc s; queue := queue s; req := req s; req_content := req_content s; req_stream := req_stream s; fresp := fresp s; ferr := ferr s; live := live s; reqbuf := reqbuf s; respbuf := v; srv := srv s; hooks := hooks s; upstream := upstream s; tunnel := tunnel s; crashed := crashed s |}.
-Definition upd_srv (v : option N) (s : stream) : stream := {| sid := sid s; cs := cs s; ss := ss s; pc := pc s; queue := queue s; req := req s; req_content := req_content s; req_stream := req_stream s; fresp := fresp s; ferr := ferr s; live := live s; reqbuf := reqbuf s; respbuf := respbuf s; srv := v; hooks := hooks s; upstream := upstream s; tunnel := tunnel s; crashed := crashed s |}.
-Definition upd_hooks (v : list hook) (s : stream) : stream := {| sid := sid s; cs := cs s; ss := ss s; pc := pc s; queue := queue s; req := req s; req_content := req_content s; req_stream := req_stream s; fresp := fresp s; ferr := ferr s; live := live s; reqbuf := reqbuf s; respbuf := respbuf s; srv := srv s; hooks := v; upstream := upstream s; tunnel := tunnel s; crashed := crashed s |}.
-Definition upd_upstream (v : bool) (s : stream) : stream := {| sid := sid s; cs := cs s; ss := ss s; pc := pc s; queue := queue s; req := req s; req_content := req_content s; req_stream := req_stream s; fresp := fresp s; ferr := ferr s; live := live s; reqbuf := reqbuf s; respbuf := respbuf s; srv := srv s; hooks := hooks s; upstream := v; tunnel := tunnel s; crashed := crashed s |}.
-Definition upd_tunnel (v : bool) (s : stream) : stream := {| sid := sid s; cs := cs s; ss := ss s; pc := pc s; queue := queue s; req := req s; req_content := req_content s; req_stream := req_stream s; fresp := fresp s; ferr := ferr s; live := live s; reqbuf := reqbuf s; respbuf := respbuf s; srv := srv s; hooks := hooks s; upstream := upstream s; tunnel := v; crashed := crashed s |}.
-Definition upd_crashed (v : bool) (s : stream) : stream := {| sid := sid s; cs := cs s; ss := ss s; pc := pc s; queue := queue s; req := req s; req_content := req_content s; req_stream := req_stream s; fresp := fresp s; ferr := ferr s; live := live s; reqbuf := reqbuf s; respbuf := respbuf s; srv := srv s; hooks := hooks s; upstream := upstream s; tunnel := tunnel s; crashed := v |}.
+Definition upd_sid (v : N) (s : stream) : stream := {| sid := v; cs := cs s; ss := ss s; pc := pc s; queue := queue s; req := req s; req_content := req_content s; req_stream := req_stream s; fresp := fresp s; ferr := ferr s; live := live s; reqbuf := reqbuf s; respbuf := respbuf s; srv := srv s; hooks := hooks s; upstream := upstream s; tunnel := tunnel s; crashed := crashed s; msum := msum s; aborted := aborted s; reqerr_h := reqerr_h s; req_fin := req_fin s; resp_fin := resp_fin s; venv := venv s; vgap := vgap s |}.
+Definition upd_cs (v : sst) (s : stream) : stream := {| sid := sid s; cs := v; ss := ss s; pc := pc s; queue := queue s; req := req s; req_content := req_content s; req_stream := req_stream s; fresp := fresp s; ferr := ferr s; live := live s; reqbuf := reqbuf s; respbuf := respbuf s; srv := srv s; hooks := hooks s; upstream := upstream s; tunnel := tunnel s; crashed := crashed s; msum := msum s; aborted := aborted s; reqerr_h := reqerr_h s; req_fin := req_fin s; resp_fin := resp_fin s; venv := venv s; vgap := vgap s |}.
+Definition upd_ss (v : sst) (s : stream) : stream := {| sid := sid s; cs := cs s; ss := v; pc := pc s; queue := queue s; req := req s; req_content := req_content s; req_stream := req_stream s; fresp := fresp s; ferr := ferr s; live := live s; reqbuf := reqbuf s; respbuf := respbuf s; srv := srv s; hooks := hooks s; upstream := upstream s; tunnel := tunnel s; crashed := crashed s; msum := msum s; aborted := aborted s; reqerr_h := reqerr_h s; req_fin := req_fin s; resp_fin := resp_fin s; venv := venv s; vgap := vgap s |}.
+Definition upd_pc (v : option await) (s : stream) : stream := {| sid := sid s; cs := cs s; ss := ss s; pc := v; queue := queue s; req := req s; req_content := req_content s; req_stream := req_stream s; fresp := fresp s; ferr := ferr s; live := live s; reqbuf := reqbuf s; respbuf := respbuf s; srv := srv s; hooks := hooks s; upstream := upstream s; tunnel := tunnel s; crashed := crashed s; msum := msum s; aborted := aborted s; reqerr_h := reqerr_h s; req_fin := req_fin s; resp_fin := resp_fin s; venv := venv s; vgap := vgap s |}.
+Definition upd_queue (v : list hev) (s : stream) : stream := {| sid := sid s; cs := cs s; ss := ss s; pc := pc s; queue := v; req := req s; req_content := req_content s; req_stream := req_stream s; fresp := fresp s; ferr := ferr s; live := live s; reqbuf := reqbuf s; respbuf := respbuf s; srv := srv s; hooks := hooks s; upstream := upstream s; tunnel := tunnel s; crashed := crashed s; msum := msum s; aborted := aborted s; reqerr_h := reqerr_h s; req_fin := req_fin s; resp_fin := resp_fin s; venv := venv s; vgap := vgap s |}.
+Definition upd_req (v : option head) (s : stream) : stream := {| sid := sid s; cs := cs s; ss := ss s; pc := pc s; queue := queue s; req := v; req_content := req_content s; req_stream := req_stream s; fresp := fresp s; ferr := ferr s; live := live s; reqbuf := reqbuf s; respbuf := respbuf s; srv := srv s; hooks := hooks s; upstream := upstream s; tunnel := tunnel s; crashed := crashed s; msum := msum s; aborted := aborted s; reqerr_h := reqerr_h s; req_fin := req_fin s; resp_fin := resp_fin s; venv := venv s; vgap := vgap s |}.
+Definition upd_req_content (v : bytes) (s : stream) : stream := {| sid := sid s; cs := cs s; ss := ss s; pc := pc s; queue := queue s; req := req s; req_content := v; req_stream := req_stream s; fresp := fresp s; ferr := ferr s; live := live s; reqbuf := reqbuf s; respbuf := respbuf s; srv := srv s; hooks := hooks s; upstream := upstream s; tunnel := tunnel s; crashed := crashed s; msum := msum s; aborted := aborted s; reqerr_h := reqerr_h s; req_fin := req_fin s; resp_fin := resp_fin s; venv := venv s; vgap := vgap s |}.
+Definition upd_req_stream (v : bool) (s : stream) : stream := {| sid := sid s; cs := cs s; ss := ss s; pc := pc s; queue := queue s; req := req s; req_content := req_content s; req_stream := v; fresp := fresp s; ferr := ferr s; live := live s; reqbuf := reqbuf s; respbuf := respbuf s; srv := srv s; hooks := hooks s; upstream := upstream s; tunnel := tunnel s; crashed := crashed s; msum := msum s; aborted := aborted s; reqerr_h := reqerr_h s; req_fin := req_fin s; resp_fin := resp_fin s; venv := venv s; vgap := vgap s |}.
+Definition upd_fresp (v : option resp) (s : stream) : stream := {| sid := sid s; cs := cs s; ss := ss s; pc := pc s; queue := queue s; req := req s; req_content := req_content s; req_stream := req_stream s; fresp := v; ferr := ferr s; live := live s; reqbuf := reqbuf s; respbuf := respbuf s; srv := srv s; hooks := hooks s; upstream := upstream s; tunnel := tunnel s; crashed := crashed s; msum := msum s; aborted := aborted s; reqerr_h := reqerr_h s; req_fin := req_fin s; resp_fin := resp_fin s; venv := venv s; vgap := vgap s |}.
+Definition upd_ferr (v : option bool) (s : stream) : stream := {| sid := sid s; cs := cs s; ss := ss s; pc := pc s; queue := queue s; req := req s; req_content := req_content s; req_stream := req_stream s; fresp := fresp s; ferr := v; live := live s; reqbuf := reqbuf s; respbuf := respbuf s; srv := srv s; hooks := hooks s; upstream := upstream s; tunnel := tunnel s; crashed := crashed s; msum := msum s; aborted := aborted s; reqerr_h := reqerr_h s; req_fin := req_fin s; resp_fin := resp_fin s; venv := venv s; vgap := vgap s |}.
+Definition upd_live (v : bool) (s : stream) : stream := {| sid := sid s; cs := cs s; ss := ss s; pc := pc s; queue := queue s; req := req s; req_content := req_content s; req_stream := req_stream s; fresp := fresp s; ferr := ferr s; live := v; reqbuf := reqbuf s; respbuf := respbuf s; srv := srv s; hooks := hooks s; upstream := upstream s; tunnel := tunnel s; crashed := crashed s; msum := msum s; aborted := aborted s; reqerr_h := reqerr_h s; req_fin := req_fin s; resp_fin := resp_fin s; venv := venv s; vgap := vgap s |}.
+Definition upd_reqbuf (v : bytes) (s : stream) : stream := {| sid := sid s; cs := cs s; ss := ss s; pc := pc s; queue := queue s; req := req s; req_content := req_content s; req_stream := req_stream s; fresp := fresp s; ferr := ferr s; live := live s; reqbuf := v; respbuf := respbuf s; srv := srv s; hooks := hooks s; upstream := upstream s; tunnel := tunnel s; crashed := crashed s; msum := msum s; aborted := aborted s; reqerr_h := reqerr_h s; req_fin := req_fin s; resp_fin := resp_fin s; venv := venv s; vgap := vgap s |}.
+Definition upd_respbuf (v : bytes) (s : stream) : stream := {| sid := sid s; cs := cs s; ss := ss s; pc := pc s; queue := queue s; req := req s; req_content := req_content s; req_stream := req_stream s; fresp := fresp s; ferr := ferr s; live := live s; reqbuf := reqbuf s; respbuf := v; srv := srv s; hooks := hooks s; upstream := upstream s; tunnel := tunnel s; crashed := crashed s; msum := msum s; aborted := aborted s; reqerr_h := reqerr_h s; req_fin := req_fin s; resp_fin := resp_fin s; venv := venv s; vgap := vgap s |}.
+Definition upd_srv (v : option N) (s : stream) : stream := {| sid := sid s; cs := cs s; ss := ss s; pc := pc s; queue := queue s; req := req s; req_content := req_content s; req_stream := req_stream s; fresp := fresp s; ferr := ferr s; live := live s; reqbuf := reqbuf s; respbuf := respbuf s; srv := v; hooks := hooks s; upstream := upstream s; tunnel := tunnel s; crashed := crashed s; msum := msum s; aborted := aborted s; reqerr_h := reqerr_h s; req_fin := req_fin s; resp_fin := resp_fin s; venv := venv s; vgap := vgap s |}.
+Definition upd_hooks (v : list hook) (s : stream) : stream := {| sid := sid s; cs := cs s; ss := ss s; pc := pc s; queue := queue s; req := req s; req_content := req_content s; req_stream := req_stream s; fresp := fresp s; ferr := ferr s; live := live s; reqbuf := reqbuf s; respbuf := respbuf s; srv := srv s; hooks := v; upstream := upstream s; tunnel := tunnel s; crashed := crashed s; msum := msum s; aborted := aborted s; reqerr_h := reqerr_h s; req_fin := req_fin s; resp_fin := resp_fin s; venv := venv s; vgap := vgap s |}.
+Definition upd_upstream (v : bool) (s : stream) : stream := {| sid := sid s; cs := cs s; ss := ss s; pc := pc s; queue := queue s; req := req s; req_content := req_content s; req_stream := req_stream s; fresp := fresp s; ferr := ferr s; live := live s; reqbuf := reqbuf s; respbuf := respbuf s; srv := srv s; hooks := hooks s; upstream := v; tunnel := tunnel s; crashed := crashed s; msum := msum s; aborted := aborted s; reqerr_h := reqerr_h s; req_fin := req_fin s; resp_fin := resp_fin s; venv := venv s; vgap := vgap s |}.
+Definition upd_tunnel (v : bool) (s : stream) : stream := {| sid := sid s; cs := cs s; ss := ss s; pc := pc s; queue := queue s; req := req s; req_content := req_content s; req_stream := req_stream s; fresp := fresp s; ferr := ferr s; live := live s; reqbuf := reqbuf s; respbuf := respbuf s; srv := srv s; hooks := hooks s; upstream := upstream s; tunnel := v; crashed := crashed s; msum := msum s; aborted := aborted s; reqerr_h := reqerr_h s; req_fin := req_fin s; resp_fin := resp_fin s; venv := venv s; vgap := vgap s |}.
+Definition upd_crashed (v : bool) (s : stream) : stream := {| sid := sid s; cs := cs s; ss := ss s; pc := pc s; queue := queue s; req := req s; req_content := req_content s; req_stream := req_stream s; fresp := fresp s; ferr := ferr s; live := live s; reqbuf := reqbuf s; respbuf := respbuf s; srv := srv s; hooks := hooks s; upstream := upstream s; tunnel := tunnel s; crashed := v; msum := msum s; aborted := aborted s; reqerr_h := reqerr_h s; req_fin := req_fin s; resp_fin := resp_fin s; venv := venv s; vgap := vgap s |}.
+Definition upd_msum (v : mstate) (s : stream) : stream := {| sid := sid s; cs := cs s; ss := ss s; pc := pc s; queue := queue s; req := req s; req_content := req_content s; req_stream := req_stream s; fresp := fresp s; ferr := ferr s; live := live s; reqbuf := reqbuf s; respbuf := respbuf s; srv := srv s; hooks := hooks s; upstream := upstream s; tunnel := tunnel s; crashed := crashed s; msum := v; aborted := aborted s; reqerr_h := reqerr_h s; req_fin := req_fin s; resp_fin := resp_fin s; venv := venv s; vgap := vgap s |}.
+Definition upd_aborted (v : bool) (s : stream) : stream := {| sid := sid s; cs := cs s; ss := ss s; pc := pc s; queue := queue s; req := req s; req_content := req_content s; req_stream := req_stream s; fresp := fresp s; ferr := ferr s; live := live s; reqbuf := reqbuf s; respbuf := respbuf s; srv := srv s; hooks := hooks s; upstream := upstream s; tunnel := tunnel s; crashed := crashed s; msum := msum s; aborted := v; reqerr_h := reqerr_h s; req_fin := req_fin s; resp_fin := resp_fin s; venv := venv s; vgap := vgap s |}.
+Definition upd_reqerr_h (v : bool) (s : stream) : stream := {| sid := sid s; cs := cs s; ss := ss s; pc := pc s; queue := queue s; req := req s; req_content := req_content s; req_stream := req_stream s; fresp := fresp s; ferr := ferr s; live := live s; reqbuf := reqbuf s; respbuf := respbuf s; srv := srv s; hooks := hooks s; upstream := upstream s; tunnel := tunnel s; crashed := crashed s; msum := msum s; aborted := aborted s; reqerr_h := v; req_fin := req_fin s; resp_fin := resp_fin s; venv := venv s; vgap := vgap s |}.
+Definition upd_req_fin (v : bool) (s : stream) : stream := {| sid := sid s; cs := cs s; ss := ss s; pc := pc s; queue := queue s; req := req s; req_content := req_content s; req_stream := req_stream s; fresp := fresp s; ferr := ferr s; live := live s; reqbuf := reqbuf s; respbuf := respbuf s; srv := srv s; hooks := hooks s; upstream := upstream s; tunnel := tunnel s; crashed := crashed s; msum := msum s; aborted := aborted s; reqerr_h := reqerr_h s; req_fin := v; resp_fin := resp_fin s; venv := venv s; vgap := vgap s |}.
+Definition upd_resp_fin (v : bool) (s : stream) : stream := {| sid := sid s; cs := cs s; ss := ss s; pc := pc s; queue := queue s; req := req s; req_content := req_content s; req_stream := req_stream s; fresp := fresp s; ferr := ferr s; live := live s; reqbuf := reqbuf s; respbuf := respbuf s; srv := srv s; hooks := hooks s; upstream := upstream s; tunnel := tunnel s; crashed := crashed s; msum := msum s; aborted := aborted s; reqerr_h := reqerr_h s; req_fin := req_fin s; resp_fin := v; venv := venv s; vgap := vgap s |}.
+Definition upd_venv (v : bool) (s : stream) : stream := {| sid := sid s; cs := cs s; ss := ss s; pc := pc s; queue := queue s; req := req s; req_content := req_content s; req_stream := req_stream s; fresp := fresp s; ferr := ferr s; live := live s; reqbuf := reqbuf s; respbuf := respbuf s; srv := srv s; hooks := hooks s; upstream := upstream s; tunnel := tunnel s; crashed := crashed s; msum := msum s; aborted := aborted s; reqerr_h := reqerr_h s; req_fin := req_fin s; resp_fin := resp_fin s; venv := v; vgap := vgap s |}.
+Definition upd_vgap (v : bool) (s : stream) : stream := {| sid := sid s; cs := cs s; ss := ss s; pc := pc s; queue := queue s; req := req s; req_content := req_content s; req_stream := req_stream s; fresp := fresp s; ferr := ferr s; live := live s; reqbuf := reqbuf s; respbuf := respbuf s; srv := srv s; hooks := hooks s; upstream := upstream s; tunnel := tunnel s; crashed := crashed s; msum := msum s; aborted := aborted s; reqerr_h := reqerr_h s; req_fin := req_fin s; resp_fin := resp_fin s; venv := venv s; vgap := v |}.
 Inductive target := TClient | TServer.
 Inductive scmd :=
 | CHook (h : hook) | CSend (t : target) (e : hev) | CGetConn (host : N) | CDrop | CCloseServer | CTunnel | CCrash.
@@ -105,7 +138,8 @@ Inductive sinput := IEvent (e : hev) | IHookDone | IConnDone (c : option N).
 Definition res := (stream * list scmd)%type.
 
 Definition new_stream (id : N) : stream :=
-  mkStream id SWaitReqH SUninit None [] None [] false None None false [] [] None [] false false false.
+  mkStream id SWaitReqH SUninit None [] None [] false None None false [] [] None [] false false false
+           m0 false false false false false false.
 
 Definition isnil {A} (l : list A) : bool := match l with [] => true | _ => false end.
 Definition len (b : bytes) : N := N.of_nat (length b).
@@ -124,7 +158,7 @@ Definition connect200_head : head := mkHead [] MGet HNone 0 true true false fals
 
 Definition crash (s : stream) : res := (upd_crashed true s, [CCrash]).
 Definition emit_hook (h : hook) (k : await) (s : stream) : res :=
-  (upd_pc (Some k) (upd_hooks (hooks s ++ [h]) s), [CHook h]).
+  (upd_pc (Some k) (upd_msum (mon_step (msum s) h) (upd_hooks (hooks s ++ [h]) s)), [CHook h]).
 Definition seq_res (r : res) (f : stream -> res) : res :=
   let '(s1, c1) := r in let '(s2, c2) := f s1 in (s2, c1 ++ c2).
 Definition req_host (s : stream) : N := match req s with Some h => h_host h | None => 0 end.
@@ -204,7 +238,7 @@ Definition handle_perr (isreq : bool) (code : option N) (af : after) (s : stream
   let ss_fin := sst_eqb (ss s) SDone || sst_eqb (ss s) SErrored in
   let talk := isreq && (sst_eqb (cs s) SStreamReq || sst_eqb (cs s) SDone) && negb ss_fin in
   let need := negb (sst_eqb (cs s) SErrored || ss_fin) in
-  let r1 := if talk then (upd_cs SErrored s, [CSend TServer (EReqErr code)]) else (s, []) in
+  let r1 := if talk then (upd_aborted true (upd_cs SErrored s), [CSend TServer (EReqErr code)]) else (s, []) in
   seq_res r1 (fun s1 =>
     if need then emit_hook HkError (AwPErr isreq code af) (upd_ferr (Some false) s1)
     else perr_tail isreq code af s1).
@@ -382,7 +416,27 @@ Definition cont_connect (s : stream) : res :=
   end.
 
 (* ---------- HttpStream._handle_event *)
-Definition run_event (o : opts) (s : stream) (e : hev) : res :=
+Definition is_req_side (e : hev) : bool :=
+  match e with EReqHeaders _ _ | EReqData _ | EReqEOM | EReqErr _ => true | _ => false end.
+Definition is_first (e : hev) : bool := match e with EReqHeaders _ _ => true | _ => false end.
+(* ghost bookkeeping for the event about to be handled: what the connection layers guarantee (venv), the
+   aborted-but-still-fed situation (vgap), and which terminal events have been seen *)
+Definition note_event (e : hev) (s : stream) : stream :=
+  let fresh := sst_eqb (cs s) SWaitReqH && negb (is_some (req s)) in
+  let bad_env := (fresh && negb (is_first e)) || (negb fresh && is_first e)
+                 || (negb (is_req_side e) && negb (upstream s))
+                 || (is_req_side e && reqerr_h s) in
+  let s1 := if bad_env then upd_venv true s else s in
+  let s2 := if negb (is_req_side e) && aborted s then upd_vgap true s1 else s1 in
+  match e with
+  | EReqErr _ => upd_req_fin true (upd_reqerr_h true s2)
+  | EReqEOM => upd_req_fin true s2
+  | ERespEOM | ERespErr _ => upd_resp_fin true s2
+  | _ => s2
+  end.
+
+Definition run_event (o : opts) (s0 : stream) (e : hev) : res :=
+  let s := note_event e s0 in
   match e with
   | EReqErr c => handle_perr true c AfNone s
   | ERespErr c => handle_perr false c AfNone s
